@@ -183,13 +183,14 @@ def run_case(spec, inject=None, backend_options=None):
                 with rp:
                     out = orig(*a, **k)
                 snap["post"] = read_circuit(eng, spec["backend"])
+                snap["ret"] = np.array(out)
                 return out
             setattr(be, nm, f)
         for nm in MEAS_METHODS:
             if hasattr(be, nm):
                 wrap(nm)
         res = eng.run(prog, shots=spec.get("shots", 1))
-        return dict(pre=snap.get("pre"), post=snap.get("post"), samples=np.array(res.samples), samples_dict=res.samples_dict,
+        return dict(pre=snap.get("pre"), post=snap.get("post"), ret=snap.get("ret"), samples=np.array(res.samples), samples_dict=res.samples_dict,
                     calls=rp.calls, eng=eng, result=res, rp=rp, regvals={r.ind: r.val for r in prog.reg_refs.values()})
 
 
@@ -815,12 +816,12 @@ def corr_collation(ctx):
 # ------------------------------------------------------------------------------------------------
 # Fock photon counting: probability vector handed to np.random.choice and outcome order
 
-def fock_prefix(rng, n, weak=False):
+def fock_prefix(rng, n, weak=False, t=3):
     cmds = []
     for i in range(n):
         kind = rng.choice(["Fock", "Coherent", "Squeezed", "Vacuum"])
         if kind == "Fock":
-            cmds.append(["Fock", [rng.choice([0, 1, 1, 2])], [i], False])
+            cmds.append(["Fock", [min(rng.choice([0, 1, 1, 2]), t - 1)], [i], False])
         elif kind == "Coherent":
             cmds.append(["Coherent", [round(rng.uniform(0.2, 0.7 if not weak else 0.4), 3), round(rng.uniform(-2, 2), 3)], [i], False])
         elif kind == "Squeezed":
@@ -838,7 +839,7 @@ def gen_fock_case(rng, max_n=3):
     n = rng.randint(1, max_n)
     t = rng.choice([2, 3, 3, 4]) if n >= 3 else rng.choice([3, 4, 5])
     modes = rng.sample(range(n), rng.randint(1, n))
-    return dict(backend="fock", n=n, deleted=[], live=list(range(n)), prefix=fock_prefix(rng, n), hbar=2.0,
+    return dict(backend="fock", n=n, deleted=[], live=list(range(n)), prefix=fock_prefix(rng, n, t=t), hbar=2.0,
                 backend_options={"cutoff_dim": t}, meas=dict(kind="fock", modes=modes), u=rng.random())
 
 
@@ -892,7 +893,7 @@ def corr_fock(ctx):
         tot = m_dist.sum()
         if not close(m_dist / tot if tot > 0 else m_dist, rec["p"], 1e-8):
             bad.append("choice-p")
-        smp = out["samples"]
+        smp = out["ret"]
         if smp.shape != (1, len(spec["meas"]["modes"])) or [int(x) for x in smp[0]] != list(m_outcome):
             bad.append("outcome")
         if bad:
@@ -940,10 +941,19 @@ def predicate_fock(spec, out, rec=None):
     n = spec["n"]
     t = spec["backend_options"]["cutoff_dim"]
     modes = spec["meas"]["modes"]
-    smp = out["samples"]
+    smp = out["ret"]
     if smp.shape != (1, len(modes)):
         return "sample-shape"
     outcome = [int(x) for x in smp[0]]
+    # what the user sees: Result.samples has one column per measured mode in ascending mode order,
+    # RegRef.val of each listed mode holds its own outcome
+    order = sorted(range(len(modes)), key=lambda i: modes[i])
+    if out["samples"].shape != (1, len(modes)) or [int(x) for x in out["samples"][0]] != [outcome[i] for i in order]:
+        return "samples-not-ascending-by-mode"
+    for m, x in zip(modes, outcome):
+        v = out["regvals"].get(m)
+        if v is None or int(np.ravel(v)[0]) != x:
+            return "regref-val"
     sel = spec["meas"].get("select")
     if sel is not None and outcome != list(sel):
         return "select-not-reported"
@@ -970,6 +980,596 @@ def predicate_fock(spec, out, rec=None):
         return "conditional-state"
     return None
 
+
+# ------------------------------------------------------------------------------------------------
+# search: the property's own predicate on the implementation.  Every check_* takes a JSON spec and returns a
+# list of failures [(signature, what)], so that a replay file only needs {"check": name, "spec": spec}.
+
+def with_select(spec, value):
+    sp = copy.deepcopy(spec)
+    kind = sp["meas"]["kind"]
+    if kind == "hom":
+        sp["meas"]["select"] = float(np.real(value))
+    elif kind == "het":
+        sp["meas"]["select"] = [float(complex(value).real), float(complex(value).imag)]
+    else:
+        sp["meas"]["select"] = [int(x) for x in value]
+    return sp
+
+
+def label_of(spec):
+    return "%s:%s:%s" % (spec["backend"], spec["meas"]["kind"], "select" if spec["meas"].get("select") is not None else "sample")
+
+
+def check_dyne(spec):
+    """one homodyne / heterodyne measurement on a phase-space backend against the textbook conditional state"""
+    try:
+        out = run_case(spec, inject=dyne_inject(spec))
+    except Exception as e:
+        return [(raise_sig(spec, e), "measurement raised %r" % (e,))], None
+    tag = predicate_dyne(spec, out)
+    fails = []
+    if tag:
+        fails.append(("dyne:%s:%s" % (label_of(spec), tag),
+                      "%s on mode %s (%s backend, hbar=%s): %s is not that of the textbook conditional state / expected value"
+                      % (spec["meas"]["kind"], spec["meas"]["modes"], spec["backend"], spec["hbar"], tag)))
+    # Born parameters handed to the generator, against an independent marginal of the pre-state
+    btag = born_dyne(spec, out)
+    if btag:
+        fails.append(("born:%s:%s" % (label_of(spec), btag), "parameters handed to numpy.random are not the measured mode's marginal (%s)" % btag))
+    return fails, out
+
+
+def born_dyne(spec, out):
+    meas = spec["meas"]
+    if meas.get("select") is not None:
+        return None
+    r, V = state_of(out["pre"], spec["backend"])
+    k = meas["modes"][0]
+    c = out["rp"].of("multivariate_normal")
+    if len(c) != 1:
+        return "call-count"
+    mean, cov = np.array(c[0][1][0], dtype=float), np.array(c[0][1][1], dtype=float)
+    if meas["kind"] == "hom":
+        cs, sn = math.cos(meas["phi"]), math.sin(meas["phi"])
+        x, pq = 2 * k, 2 * k + 1
+        mx = cs * r[x] + sn * r[pq]
+        vx = cs * cs * V[x, x] + 2 * cs * sn * V[x, pq] + sn * sn * V[pq, pq]
+        if abs(mean[0] - mx) > 1e-9 * max(1, abs(mx)):
+            return "mean"
+        if abs(cov[0, 0] - (vx + EPS ** 2)) > 1e-9 * max(1, abs(vx)):
+            return "variance"
+        if abs(cov[0, 1]) > 1e-3 * cov[1, 1] ** 0.5 * 10 and abs(cov[0, 1] - (-(cs * sn) * (V[x, x] - V[pq, pq]) + (cs * cs - sn * sn) * V[x, pq])) > 1e-8:
+            return "xp-covariance"
+        return None
+    idx = [2 * k, 2 * k + 1]
+    if not close(mean, r[idx], 1e-9):
+        return "mean"
+    if not close(cov, V[np.ix_(idx, idx)] + np.eye(2), 1e-9):
+        return "covariance"
+    return None
+
+
+def check_dyne_family(spec):
+    """sampled and post-selected measurement on both phase-space backends from the same pre-state spec:
+    each against the textbook oracle; sampled-vs-selected on the returned value; Gaussian-vs-bosonic"""
+    fails = []
+    posts = {}
+    for backend in ("gaussian", "bosonic"):
+        sp = copy.deepcopy(spec)
+        sp["backend"] = backend
+        sp["meas"].pop("select", None)
+        f, out = check_dyne(sp)
+        fails += f
+        if out is None:
+            continue
+        v = out["samples"][0, 0]
+        sp2 = with_select(sp, v)
+        f2, out2 = check_dyne(sp2)
+        fails += f2
+        if out2 is None:
+            continue
+        tol = 5e-6 if sp["meas"]["kind"] == "hom" else 1e-8
+        a, b = post_state(out, backend), post_state(out2, backend)
+        if not (close(a[0], b[0], tol) and close(a[1], b[1], tol)):
+            fails.append(("sample-vs-select:%s:%s" % (backend, sp["meas"]["kind"]),
+                          "%s backend: state after sampling outcome %s differs from the state after post-selecting that value" % (backend, v)))
+        posts[backend] = (b, out2["samples"][0, 0])
+    if len(posts) == 2:
+        tol = 5e-6 if spec["meas"]["kind"] == "hom" else 1e-8
+        (g, gv), (b, bv) = posts["gaussian"], posts["bosonic"]
+        if not (close(g[0], b[0], tol) and close(g[1], b[1], tol)):
+            fails.append(("select:%s:gaussian-vs-bosonic" % spec["meas"]["kind"],
+                          "post-selecting %s=%s on mode %s gives different conditional states on the gaussian and bosonic backends (max mean difference %.3g)"
+                          % (spec["meas"]["kind"], gv, spec["meas"]["modes"], float(np.max(np.abs(np.array(g[0]) - np.array(b[0]))))))) 
+    return fails
+
+
+def check_fock(spec):
+    rec = {}
+    inject = dict(choice=choice_injector(spec.get("u", 0.5), rec))
+    try:
+        out = run_case(spec, inject=inject)
+    except Exception as e:
+        return [(raise_sig(spec, e), "MeasureFock raised %r" % (e,))], None, rec
+    tag = predicate_fock(spec, out, rec if spec["meas"].get("select") is None else None)
+    fails = []
+    if tag:
+        fails.append(("fock:%s:%s" % ("select" if spec["meas"].get("select") is not None else "measure", tag),
+                      "MeasureFock%s on modes %s (cutoff %s): %s wrong" % ("(select=%s)" % spec["meas"].get("select") if spec["meas"].get("select") is not None else "",
+                                                                            spec["meas"]["modes"], spec["backend_options"], tag)))
+    return fails, out, rec
+
+
+def check_fock_family(spec):
+    sp = copy.deepcopy(spec)
+    sp["meas"].pop("select", None)
+    fails, out, rec = check_fock(sp)
+    if out is None:
+        return fails
+    outcome = [int(x) for x in out["ret"][0]]
+    sp2 = with_select(sp, outcome)
+    f2, out2, _ = check_fock(sp2)
+    fails += f2
+    if out2 is not None:
+        if not np.allclose(post_rho(out["post"], sp["n"]), post_rho(out2["post"], sp["n"]), atol=1e-9):
+            fails.append(("sample-vs-select:fock:fock", "state after measuring %s on %s differs from the state after post-selecting it" % (outcome, sp["meas"]["modes"])))
+    return fails
+
+
+# ---- Fock-backend homodyne against the Gaussian backend ----------------------------------------
+
+def ladder(t):
+    a = np.diag(np.sqrt(np.arange(1, t)), 1)
+    return a
+
+
+def fock_moments(post, n, mode):
+    """(mean, cov) of (x, p) of one mode of a Fock-backend state, hbar = 2 units, and its vacuum population"""
+    rho = post_rho(post, n)
+    t = rho.shape[0]
+    letters = "abcdefgh"[:n]
+    sub_in = "".join(letters) + "".join(c.upper() if i == mode else c for i, c in enumerate(letters))
+    red = np.einsum(sub_in + "->" + letters[mode] + letters[mode].upper(), rho)
+    tr = np.trace(red)
+    red = red / tr
+    a = ladder(t)
+    x = a + a.conj().T
+    pq = -1j * (a - a.conj().T)
+    ex = lambda o: np.trace(red @ o)
+    mx, mp = np.real(ex(x)), np.real(ex(pq))
+    vxx = np.real(ex(x @ x)) - mx ** 2
+    vpp = np.real(ex(pq @ pq)) - mp ** 2
+    vxp = np.real(ex((x @ pq + pq @ x) / 2)) - mx * mp
+    return np.array([mx, mp]), np.array([[vxx, vxp], [vxp, vpp]]), float(np.real(red[0, 0])), float(np.real(tr))
+
+
+def weak_prefix(rng, n):
+    cmds = []
+    for i in range(n):
+        cmds.append(["Sgate", [round(rng.uniform(0.1, 0.3), 3), round(rng.uniform(-1, 1), 3)], [i], False])
+        cmds.append(["Dgate", [round(rng.uniform(0.1, 0.4), 3), round(rng.uniform(-2, 2), 3)], [i], False])
+    for i in range(n - 1):
+        cmds.append(["BSgate", [round(rng.uniform(0.3, 1.2), 3), round(rng.uniform(-1, 1), 3)], [i, i + 1], False])
+    return cmds
+
+
+def gen_fockhom_case(rng):
+    n = rng.choice([1, 2, 2])
+    k = rng.randrange(n)
+    phi = rng.choice([0.0, math.pi / 2, round(rng.uniform(-3, 3), 3)])
+    return dict(n=n, deleted=[], live=list(range(n)), prefix=weak_prefix(rng, n), hbar=rng.choice(HBARS), backend="fock",
+                backend_options={"cutoff_dim": 16 if n == 2 else 24},
+                meas=dict(kind="hom", modes=[k], phi=phi, select=round(rng.uniform(-0.8, 0.8), 3)), draw=[0.0, 0.0])
+
+
+def check_fock_homodyne(spec):
+    """post-selected homodyne: Fock backend against the Gaussian backend (same program, same value)"""
+    fails = []
+    n = spec["n"]
+    k = spec["meas"]["modes"][0]
+    try:
+        fo = run_case(spec)
+    except Exception as e:
+        return [(raise_sig(spec, e), "Fock-backend homodyne raised %r" % (e,))]
+    sg = copy.deepcopy(spec)
+    sg["backend"] = "gaussian"
+    sg["backend_options"] = {}
+    go = run_case(sg, inject=dyne_inject(sg))
+    gm, gc = post_state(go, "gaussian")
+    if abs(fo["samples"][0, 0] - spec["meas"]["select"]) > 1e-9:
+        fails.append(("fock-homodyne:select-not-reported", "Fock backend reports %s for select=%s" % (fo["samples"][0, 0], spec["meas"]["select"])))
+    for m in range(n):
+        mu, cv, p0, tr = fock_moments(fo["post"], n, m)
+        idx = [2 * m, 2 * m + 1]
+        if m == k:
+            if abs(p0 - 1) > 1e-6:
+                fails.append(("fock-homodyne:measured-mode-not-vacuum", "measured mode %d has vacuum population %.6f after MeasureHomodyne" % (m, p0)))
+            continue
+        if not (np.allclose(mu, gm[idx], atol=3e-3) and np.allclose(cv, gc[np.ix_(idx, idx)], atol=5e-3)):
+            fails.append(("select:hom:fock-vs-gaussian", "post-selecting homodyne(phi=%s)=%s on mode %d: conditional state of mode %d differs between fock and gaussian backends (means %s vs %s)"
+                          % (spec["meas"]["phi"], spec["meas"]["select"], k, m, np.round(mu, 4), np.round(gm[idx], 4))))
+    return fails
+
+
+def check_fock_homodyne_sample(spec):
+    """sampling branch of the Fock-backend homodyne: distribution handed to multinomial has the mean/variance of
+    x_phi of the pre-state (Born), the returned value is the chosen grid point, and the state equals the one
+    obtained by post-selecting that value"""
+    fails = []
+    sp = copy.deepcopy(spec)
+    sp["meas"].pop("select", None)
+    rec = {}
+
+    def multinomial(nn, pvals, size=None):
+        pv = np.asarray(pvals, dtype=float)
+        cdf = np.cumsum(pv)
+        i = int(np.searchsorted(cdf, spec.get("u", 0.5) * cdf[-1]))
+        rec["p"] = pv
+        rec["i"] = i
+        h = np.zeros(len(pv), dtype=int)
+        h[i] = 1
+        return h
+    try:
+        so = run_case(sp, inject=dict(multinomial=multinomial))
+    except Exception as e:
+        return [(raise_sig(sp, e), "Fock-backend homodyne raised %r" % (e,))]
+    n, k = sp["n"], sp["meas"]["modes"][0]
+    s = math.sqrt(sp["hbar"] / 2.0)
+    grid = np.linspace(-10, 10, len(rec["p"]))
+    val = so["samples"][0, 0]
+    if abs(val - s * grid[rec["i"]]) > 1e-9:
+        fails.append(("fock-homodyne:sample-value", "returned %s, chosen grid point %s (x sqrt(hbar/2))" % (val, grid[rec["i"]])))
+    mu, cv, _, _ = fock_moments(so["pre"], n, k)
+    cs, sn = math.cos(sp["meas"]["phi"]), math.sin(sp["meas"]["phi"])
+    mx = cs * mu[0] + sn * mu[1]
+    vx = cs * cs * cv[0, 0] + 2 * cs * sn * cv[0, 1] + sn * sn * cv[1, 1]
+    pm = float(np.sum(rec["p"] * grid))
+    pv = float(np.sum(rec["p"] * grid ** 2) - pm ** 2)
+    if abs(pm - mx) > 2e-3 or abs(pv - vx) > 5e-3 * max(1, vx):
+        fails.append(("born:fock:hom:sample", "distribution handed to multinomial has mean %.4f var %.4f, the x_phi quadrature has mean %.4f var %.4f" % (pm, pv, mx, vx)))
+    sel = with_select(sp, val)
+    so2 = run_case(sel)
+    if not np.allclose(post_rho(so["post"], n), post_rho(so2["post"], n), atol=1e-7):
+        fails.append(("sample-vs-select:fock:hom", "state after sampling homodyne outcome %s differs from post-selecting it" % val))
+    return fails
+
+
+# ---- bosonic threshold detection -----------------------------------------------------------------
+
+def mix_moments(w, mu, cv):
+    w = np.asarray(w, dtype=complex)
+    mu, cv = np.asarray(mu, dtype=complex), np.asarray(cv, dtype=complex)
+    m1 = np.einsum("i,ij->j", w, mu)
+    m2 = np.einsum("i,ijk->jk", w, cv + np.einsum("ij,ik->ijk", mu, mu))
+    return float(np.real(np.sum(w))), np.real(m1), np.real(m2)
+
+
+def gen_threshold_case(rng):
+    spec = gen_state_spec(rng, "bosonic", max_n=3)
+    k = rng.choice(spec["live"])
+    spec["meas"] = dict(kind="thr", modes=[k])
+    spec["outcome"] = rng.choice([0, 1])
+    return spec
+
+
+def check_threshold(spec):
+    fails = []
+    rec = {}
+
+    def choice(a, size=None, p=None, **kw):
+        rec["p"] = np.array(p, dtype=float)
+        rec["a"] = list(a)
+        return spec["outcome"]
+    try:
+        out = run_case(spec, inject=dict(choice=choice))
+    except Exception as e:
+        return [(raise_sig(spec, e), "MeasureThreshold raised %r" % (e,))]
+    pre, post = out["pre"], out["post"]
+    r, V = state_of(pre, "bosonic")
+    k = spec["meas"]["modes"][0]
+    idx = [2 * k, 2 * k + 1]
+    d = len(r)
+    rest = [i for i in range(d) if i not in idx]
+    C = V[np.ix_(idx, idx)] + np.eye(2)
+    p0 = 2.0 / math.sqrt(np.linalg.det(C)) * math.exp(-0.5 * r[idx] @ np.linalg.inv(C) @ r[idx])
+    if rec.get("a") != [0, 1] or abs(rec["p"][0] - p0) > 1e-8 or abs(rec["p"][0] + rec["p"][1] - 1) > 1e-9:
+        fails.append(("born:bosonic:thr", "probabilities handed to choice %s, vacuum probability of the mode %.8f" % (rec.get("p"), p0)))
+    if out["samples"].shape != (1, 1) or int(out["samples"][0, 0]) != spec["outcome"]:
+        fails.append(("threshold:bosonic:sample-value", "reported %s for outcome %s" % (out["samples"].tolist(), spec["outcome"])))
+    w, mu, cv = post["weights"], post["means"], post["covs"]
+    tot, m1, m2 = mix_moments(w, mu, cv)
+    if abs(tot - 1) > 1e-8:
+        fails.append(("threshold:bosonic:weights-not-normalised", "weights sum to %s" % tot))
+    # measured mode reset to vacuum in the mixture
+    if not (np.allclose(m1[idx], 0, atol=1e-8) and np.allclose(m2[np.ix_(idx, idx)], np.eye(2), atol=1e-8)):
+        fails.append(("threshold:bosonic:measured-mode-not-vacuum", "measured mode moments %s" % np.round(m2[np.ix_(idx, idx)], 5)))
+    r0, V0 = textbook(r, V, k, np.eye(2), [0.0, 0.0])   # projection on vacuum
+    M0 = V0 + np.outer(r0, r0)
+    if spec["outcome"] == 0:
+        if not (np.allclose(m1, r0, atol=1e-8) and np.allclose(m2, M0, atol=1e-8)):
+            fails.append(("threshold:bosonic:no-click-state", "state after outcome 0 is not the projection of the measured mode on vacuum"))
+    else:
+        # p0 * rho_0 + (1 - p0) * rho_1 = pre-state on the unmeasured modes
+        Mpre = V + np.outer(r, r)
+        lhs1 = p0 * r0[rest] + (1 - p0) * m1[rest]
+        lhs2 = p0 * M0[np.ix_(rest, rest)] + (1 - p0) * m2[np.ix_(rest, rest)]
+        if rest and not (np.allclose(lhs1, r[rest], atol=1e-7) and np.allclose(lhs2, Mpre[np.ix_(rest, rest)], atol=1e-7)):
+            fails.append(("threshold:bosonic:click-state", "p0*rho_0 + (1-p0)*rho_1 does not give back the unmeasured modes' pre-measurement moments"))
+    return fails
+
+
+# ---- Gaussian backend photon counting / threshold: parameters handed to The Walrus; state update -----
+
+def gen_gfock_case(rng):
+    spec = gen_state_spec(rng, "gaussian", max_n=4, allow_del=False)
+    n = spec["n"]
+    modes = rng.sample(range(n), rng.randint(1, n))
+    spec["meas"] = dict(kind=rng.choice(["fock", "thr"]), modes=modes)
+    spec["shots"] = rng.choice([1, 1, 3])
+    if rng.random() < 0.3:
+        spec["prefix"] = [c for c in spec["prefix"] if c[0] != "Dgate"]  # zero-mean branch
+    return spec
+
+
+def check_gaussian_fock(spec):
+    import strawberryfields.backends.gaussianbackend.backend as gb
+    fails = []
+    rec = {}
+    modes = spec["meas"]["modes"]
+    shots = spec.get("shots", 1)
+
+    def haf(cov, samples, mean=None, **kw):
+        rec.update(cov=np.array(cov), mean=None if mean is None else np.array(mean), shots=samples, fn="hafnian")
+        return np.array([[10 * s_ + m for m in modes] for s_ in range(samples)])
+
+    def tor(mu=None, cov=None, samples=1, **kw):
+        rec.update(cov=np.array(cov), mean=np.array(mu), shots=samples, fn="torontonian")
+        return np.array([[10 * s_ + m for m in modes] for s_ in range(samples)])
+    old = gb.hafnian_sample_state, gb.torontonian_sample_state
+    gb.hafnian_sample_state, gb.torontonian_sample_state = haf, tor
+    try:
+        out = run_case(spec)
+    except Exception as e:
+        return [(raise_sig(spec, e), "measurement raised %r" % (e,))]
+    finally:
+        gb.hafnian_sample_state, gb.torontonian_sample_state = old
+    r, V = state_of(out["pre"], "gaussian")
+    xi = [2 * m for m in modes] + [2 * m + 1 for m in modes]
+    expc = V[np.ix_(xi, xi)]
+    expm = r[xi]
+    if rec.get("shots") != shots:
+        fails.append(("born:gaussian:%s:shots" % spec["meas"]["kind"], "sampler asked for %s samples, shots=%s" % (rec.get("shots"), shots)))
+    if "cov" not in rec or not close(rec["cov"], expc, 1e-9):
+        fails.append(("born:gaussian:%s:cov" % spec["meas"]["kind"], "covariance handed to the %s sampler is not the reduced covariance of modes %s as listed" % (rec.get("fn"), modes)))
+    elif rec["mean"] is None:
+        if not np.allclose(r, 0, atol=1e-8):
+            fails.append(("born:gaussian:%s:mean-dropped" % spec["meas"]["kind"], "state has non-zero mean but none was handed to the sampler"))
+    elif not close(rec["mean"], expm, 1e-9):
+        fails.append(("born:gaussian:%s:mean" % spec["meas"]["kind"], "mean handed to the sampler is not the reduced mean of modes %s" % modes))
+    # layout: one row per shot, columns ascending by mode
+    srt = sorted(modes)
+    exp_rows = [[10 * s_ + m for m in srt] for s_ in range(shots)]
+    if out["samples"].tolist() != exp_rows:
+        fails.append(("layout:gaussian:%s" % spec["meas"]["kind"], "Result.samples %s, expected rows per shot / columns ascending by mode %s" % (out["samples"].tolist(), exp_rows)))
+    # measured modes must be reset to vacuum (the property); the Gaussian backend leaves the state untouched
+    pm, pc = post_state(out, "gaussian")
+    if shots == 1:
+        notvac = [m for m in modes if not (np.allclose(pm[[2 * m, 2 * m + 1]], 0, atol=1e-8) and np.allclose(pc[np.ix_([2 * m, 2 * m + 1], [2 * m, 2 * m + 1])], np.eye(2), atol=1e-8))]
+        if notvac:
+            fails.append(("gaussian:%s:state-not-updated" % spec["meas"]["kind"],
+                          "after Measure%s on the gaussian backend the measured modes %s are not reset to vacuum and the other modes are not conditioned (state unchanged: %s)"
+                          % ("Fock" if spec["meas"]["kind"] == "fock" else "Threshold", notvac, bool(close(pm, r, 1e-12) and close(pc, V, 1e-12)))))
+    return fails
+
+
+# ---- sample layout with a real backend ------------------------------------------------------------
+
+def gen_layout_case(rng):
+    n = rng.randint(1, 4)
+    t = 5
+    photons = [rng.randrange(0, t) for _ in range(n)]
+    cmds = []
+    for i in range(n):
+        cmds.append(["prep", i, photons[i]])
+    cur = list(photons)
+    for _ in range(rng.randint(1, 3)):
+        modes = rng.sample(range(n), rng.randint(1, n))
+        cmds.append(["measure", modes])
+        for m in modes:
+            cur[m] = 0
+        if rng.random() < 0.5:
+            m = rng.randrange(n)
+            v = rng.randrange(0, t)
+            cmds.append(["prep", m, v])
+    return dict(n=n, cutoff=t, cmds=cmds)
+
+
+def check_layout(case):
+    n, t = case["n"], case["cutoff"]
+    prog = sf.Program(n)
+    cur = [0] * n
+    per_mode = {}
+    with prog.context as q:
+        for c in case["cmds"]:
+            if c[0] == "prep":
+                ops.Fock(c[2]) | q[c[1]]
+                cur[c[1]] = c[2]
+            else:
+                ops.MeasureFock() | tuple(q[m] for m in c[1])
+                for m in c[1]:
+                    per_mode.setdefault(m, []).append(cur[m])
+                    cur[m] = 0
+    eng = sf.Engine("fock", backend_options={"cutoff_dim": t})
+    try:
+        res = eng.run(prog)
+    except Exception as e:
+        return [("layout:fock:raises:" + type(e).__name__, "run raised %r" % (e,))]
+    keys = sorted(per_mode)
+    fails = []
+    if np.array(res.samples).tolist() != [[per_mode[m][-1] for m in keys]]:
+        fails.append(("layout:fock:samples", "Result.samples %s, expected %s (modes %s ascending, latest outcome)" % (np.array(res.samples).tolist(), [[per_mode[m][-1] for m in keys]], keys)))
+    sd = {int(k): [int(np.ravel(v)[0]) for v in vs] for k, vs in res.samples_dict.items()}
+    if sd != per_mode:
+        fails.append(("layout:fock:samples_dict", "samples_dict %s, expected %s" % (sd, per_mode)))
+    for m in range(n):
+        v = prog.reg_refs[m].val
+        if m in per_mode:
+            if v is None or int(np.ravel(v)[0]) != per_mode[m][-1]:
+                fails.append(("layout:fock:regref-val", "q[%d].val = %s, expected %s" % (m, v, per_mode[m][-1])))
+                break
+    # every measured-and-not-reprepared mode is in vacuum afterwards
+    st = res.state
+    for m in range(n):
+        exp = cur[m]
+        pr = st.fock_prob([exp if i == m else cur[i] for i in range(n)])
+        if abs(pr - 1) > 1e-9:
+            fails.append(("layout:fock:final-state", "final state is not |%s>" % cur))
+            break
+    return fails
+
+
+# ---- bosonic cat states (many peaks, complex weights and means) against the Fock backend -----------
+
+def gen_cat_case(rng):
+    n = rng.choice([1, 2, 2])
+    return dict(n=n, a=round(rng.uniform(0.5, 1.0), 3), p=rng.choice([0, 1]), rep=rng.choice(["complex", "real"]),
+                r=round(rng.uniform(0.1, 0.3), 3), theta=round(rng.uniform(0.3, 1.2), 3), bsphi=round(rng.uniform(-1, 1), 3),
+                k=rng.randrange(n), phi=rng.choice([0.0, math.pi / 2, round(rng.uniform(-3, 3), 3)]),
+                select=round(rng.uniform(-0.6, 0.6), 3), hbar=rng.choice(HBARS))
+
+
+def cat_program(case, backend):
+    n = case["n"]
+    prog = sf.Program(n)
+    with prog.context as q:
+        if backend == "bosonic":
+            ops.Catstate(case["a"], 0.0, case["p"], representation=case["rep"]) | q[0]
+        else:
+            ops.Catstate(case["a"], 0.0, case["p"]) | q[0]
+        if n == 2:
+            ops.Squeezed(case["r"], 0.0) | q[1]
+            ops.BSgate(case["theta"], case["bsphi"]) | (q[0], q[1])
+        ops.MeasureHomodyne(case["phi"], select=case["select"]) | q[case["k"]]
+    return prog
+
+
+def check_cat(case):
+    fails = []
+    n, k = case["n"], case["k"]
+    with hbar_set(case["hbar"]):
+        try:
+            eb = sf.Engine("bosonic")
+            rb = eb.run(cat_program(case, "bosonic"))
+            cb = eb.backend.circuit
+        except Exception as e:
+            allm = ":all-modes-measured" if n == 1 else ""
+            return [("raises:bosonic:hom:select:%s%s" % (type(e).__name__, allm), "bosonic cat-state homodyne raised %r" % (e,))]
+        ef = sf.Engine("fock", backend_options={"cutoff_dim": 22 if n == 1 else 15})
+        rf = ef.run(cat_program(case, "fock"))
+        post_f = read_circuit(ef, "fock")
+    tot, m1, m2 = mix_moments(cb.weights, cb.means, cb.covs)
+    if abs(tot - 1) > 1e-8 or abs(np.sum(np.imag(cb.weights))) > 1e-8:
+        fails.append(("cat:bosonic:weights-not-normalised", "weights sum to %s" % np.sum(cb.weights)))
+    for m in range(n):
+        mu, cv, p0, tr = fock_moments(post_f, n, m)
+        idx = [2 * m, 2 * m + 1]
+        bm = m1[idx]
+        bc = m2[np.ix_(idx, idx)] - np.outer(bm, bm)
+        if m == k:
+            if not (np.allclose(bm, 0, atol=1e-7) and np.allclose(bc, np.eye(2), atol=1e-7)):
+                fails.append(("cat:bosonic:measured-mode-not-vacuum", "measured mode moments %s" % np.round(bc, 5)))
+            continue
+        if not (np.allclose(mu, bm, atol=4e-3) and np.allclose(cv, bc, atol=8e-3)):
+            fails.append(("select:hom:bosonic-vs-fock:cat", "cat state, homodyne(phi=%s) select=%s on mode %d: mode %d has means %s / variances %s on bosonic, %s / %s on fock"
+                          % (case["phi"], case["select"], k, m, np.round(bm, 4), np.round(np.diag(bc), 4), np.round(mu, 4), np.round(np.diag(cv), 4))))
+    return fails
+
+
+CHECKS = {}
+
+
+def run_stream(ctx, name, gen, check, count, nontrivial, bucket):
+    CHECKS[name] = check
+    for _ in range(count):
+        spec = gen(ctx.rng)
+        try:
+            fails = check(spec)
+        except Exception as e:  # harness trouble must be visible, not silent
+            import traceback
+            ctx.obligation("search:%s:harness" % name, False, "%r\n%s\n%s" % (e, traceback.format_exc()[-1500:], canon_small(spec)))
+            return
+        ctx.case(dict(kind=name, spec=small(spec)), nontrivial=nontrivial(spec), bucket=bucket(spec))
+        for sig, what in fails:
+            ctx.counterexample(sig, what, dict(check=name, spec=spec))
+
+
+def small(spec):
+    return {k: v for k, v in spec.items() if k not in ("prefix",)}
+
+
+def canon_small(spec):
+    import json
+    return json.dumps(spec, default=repr)[:1500]
+
+
+def _fam_gen(rng):
+    return gen_dyne_case(rng, backend="gaussian", select=False)
+
+
+def register_checks():
+    CHECKS.update({
+        "dyne-family": check_dyne_family,
+        "dyne": lambda sp: check_dyne(sp)[0],
+        "fock-family": check_fock_family,
+        "fock": lambda sp: check_fock(sp)[0],
+        "fock-homodyne": check_fock_homodyne,
+        "fock-homodyne-sample": check_fock_homodyne_sample,
+        "threshold": check_threshold,
+        "gaussian-fock": check_gaussian_fock,
+        "layout": check_layout,
+        "cat": check_cat,
+        "all-measured": check_all_measured,
+    })
+
+
+def gen_all_measured(rng):
+    """every live mode of a bosonic / gaussian register is measured by one post-selected measurement"""
+    backend = rng.choice(["bosonic", "bosonic", "gaussian"])
+    spec = gen_dyne_case(rng, backend=backend, select=True)
+    spec["n"], spec["deleted"], spec["live"] = 1, [], [0]
+    spec["prefix"] = prefix_cmds(rng, 1, [0])
+    spec["meas"]["modes"] = [0]
+    return spec
+
+
+def check_all_measured(spec):
+    return check_dyne(spec)[0]
+
+
+def search(ctx):
+    register_checks()
+    nt_dyne = nontrivial_dyne
+    b_dyne = lambda sp: "search:dyne:%s:n%d%s" % (sp["meas"]["kind"], len(sp["live"]), ":del" if sp["deleted"] else "")
+    run_stream(ctx, "dyne-family", _fam_gen, check_dyne_family, ctx.budget(60, 700), nt_dyne, b_dyne)
+    run_stream(ctx, "all-measured", gen_all_measured, check_all_measured, ctx.budget(6, 40), lambda sp: False, lambda sp: "search:all-measured:" + sp["backend"])
+    run_stream(ctx, "fock-family", gen_fock_case, check_fock_family, ctx.budget(40, 500),
+               lambda sp: sp["n"] >= 2 and sp["meas"]["modes"] != list(range(len(sp["meas"]["modes"]))), lambda sp: "search:fock:n%d" % sp["n"])
+    run_stream(ctx, "threshold", gen_threshold_case, check_threshold, ctx.budget(30, 300), nt_dyne, lambda sp: "search:threshold:%d" % sp["outcome"])
+    run_stream(ctx, "gaussian-fock", gen_gfock_case, check_gaussian_fock, ctx.budget(30, 300),
+               lambda sp: sp["meas"]["modes"] != list(range(len(sp["meas"]["modes"]))), lambda sp: "search:gaussian-%s" % sp["meas"]["kind"])
+    run_stream(ctx, "layout", gen_layout_case, check_layout, ctx.budget(30, 300), lambda c: any(x[0] == "measure" and x[1] != sorted(x[1]) for x in c["cmds"]), lambda c: "search:layout:n%d" % c["n"])
+    run_stream(ctx, "fock-homodyne", gen_fockhom_case, check_fock_homodyne, ctx.budget(6, 60), lambda sp: sp["n"] == 2 and sp["meas"]["modes"] != [0], lambda sp: "search:fock-homodyne:n%d" % sp["n"])
+    run_stream(ctx, "cat", gen_cat_case, check_cat, ctx.budget(6, 60), lambda c: c["n"] == 2 and c["k"] != 0, lambda c: "search:cat:n%d:%s" % (c["n"], c["rep"]))
+    if not ctx.quick:
+        def gen_fhs(rng):
+            sp = gen_fockhom_case(rng)
+            sp["backend_options"] = {"cutoff_dim": 8}
+            sp["u"] = rng.random()
+            return sp
+        run_stream(ctx, "fock-homodyne-sample", gen_fhs, check_fock_homodyne_sample, 8, lambda sp: sp["n"] == 2 and sp["meas"]["modes"] != [0], lambda sp: "search:fock-homodyne-sample")
+
+
 def correspondence(ctx):
     corr_dyne(ctx)
     corr_peaks(ctx)
@@ -977,9 +1577,47 @@ def correspondence(ctx):
     corr_fock(ctx)
 
 
-def search(ctx):
-    pass
+REPLAY_ALIASES = {"dyne-run": "dyne", "dyne-corr": "dyne", "fock-run": "fock", "fock-corr": "fock"}
 
 
 def replay(ctx, data):
-    return False
+    register_checks()
+    d = data["data"]
+    chk = REPLAY_ALIASES.get(d.get("check"), d.get("check"))
+    sig = data.get("signature")
+    if chk == "peaks":
+        case = d["case"]
+        try:
+            w, m, cv = run_peaks_impl(case)
+        except Exception as e:
+            print("post_select_generaldyne raised %r" % (e,))
+            return True
+        tag = predicate_peaks(case, w, m, cv)
+        print("independent conditional mixture check:", tag or "holds")
+        return bool(tag)
+    if chk == "collation":
+        case = d["case"]
+        try:
+            samples, sd, regvals, log = run_collation_impl(case)
+        except Exception as e:
+            print("run raised %r" % (e,))
+            return True
+        case["executed"] = log
+        tag = check_collation_impl(case, samples, sd, regvals)
+        print("samples:", samples.tolist(), "samples_dict:", sd, "->", tag or "layout holds")
+        return bool(tag)
+    fn = CHECKS.get(chk)
+    if fn is None:
+        print("no concrete input in this replay file (kind=%s); nothing to re-run" % data.get("kind"))
+        return False
+    spec = d["spec"]
+    if chk == "fock" and "u" in d:
+        spec["u"] = d["u"]
+    fails = fn(spec)
+    for s_, what in fails:
+        print("FAILS [%s] %s" % (s_, what))
+    if not fails:
+        print("all predicates hold on this input")
+    if sig and any(s_ == sig for s_, _ in fails):
+        return True
+    return bool(fails) and not (sig and sig.startswith(("dyne:", "select:", "sample-vs-select:", "raises:", "fock:", "born:", "threshold:", "layout:", "gaussian:", "cat:", "fock-homodyne:")) and not any(s_ == sig for s_, _ in fails)) or bool(fails and not sig)
